@@ -644,3 +644,110 @@ def r_units(E):
             res.samples.append({"unit": name, "definition": rhs})
     res.floor = 2
     return res
+
+
+# ---------------------------------------------------------------------------------------------- R-LEAK (C02, C12, C19)
+@rule("R-LEAK")
+def r_leak(E):
+    pm = E.pm
+    res = RuleResult("R-LEAK", "model code does not read a for-loop variable after its loop has ended: the value is "
+                               "whatever element happened to come last (for collections derived from sets: arbitrary)")
+    for mod, (rel, tree, src) in sorted(pm.modules.items()):
+        if not any(rel.startswith(d) for d in MODEL_DIRS):
+            continue
+        for fn in [n for n in ast.walk(tree) if isinstance(n, ast.FunctionDef)]:
+            loops = [n for n in ast.walk(fn) if isinstance(n, ast.For) and isinstance(n.target, ast.Name)]
+            for L in loops:
+                v = L.target.id
+                end = max((getattr(x, "end_lineno", None) or getattr(x, "lineno", L.lineno)) for x in ast.walk(L)
+                          if hasattr(x, "lineno"))
+                res.instances += 1
+                for x in ast.walk(fn):
+                    if not (isinstance(x, ast.Name) and x.id == v and isinstance(x.ctx, ast.Load) and x.lineno > end):
+                        continue
+                    # rebound on the way? (a later loop / comprehension over the same name, or an assignment)
+                    rebound = False
+                    p = x
+                    while p is not None and p is not fn:
+                        par = getattr(p, "_parent", None)
+                        if isinstance(par, ast.For) and par is not L and _mentions(par.target, v) and p is not par.iter:
+                            rebound = True
+                        if isinstance(par, (ast.ListComp, ast.SetComp, ast.GeneratorExp, ast.DictComp)):
+                            for g in par.generators:
+                                if _mentions(g.target, v) and p is not g.iter:
+                                    rebound = True
+                        p = par
+                    for a in ast.walk(fn):
+                        if isinstance(a, ast.Assign) and end < a.lineno <= x.lineno and any(
+                                isinstance(t, ast.Name) and t.id == v for t in a.targets):
+                            rebound = True
+                    if rebound:
+                        continue
+                    cls = fn
+                    while cls is not None and not isinstance(cls, ast.ClassDef):
+                        cls = getattr(cls, "_parent", None)
+                    q = f"{cls.name}.{fn.name}" if cls is not None else fn.name
+                    res.findings.append(Finding(
+                        "R-LEAK", f"{q} reads {v} after its loop",
+                        f"{q}: `{v}` is read at line {x.lineno} after the loop `for {v} in {norm(L.iter)[:40]}` has ended: "
+                        f"it is the last element iterated — one arbitrary object stands in for all of them (and for "
+                        f"set-derived collections the choice changes between runs)", rel, x.lineno, q))
+                    break
+    res.floor = 20
+    return res
+
+
+# ---------------------------------------------------------------------------------------------- R-REPLACE-SYM (C05)
+def _swap_names(e, a, b):
+    class Sw(ast.NodeTransformer):
+        def visit_Name(self, n):
+            if n.id == a:
+                return ast.copy_location(ast.Name(id=b, ctx=n.ctx), n)
+            if n.id == b:
+                return ast.copy_location(ast.Name(id=a, ctx=n.ctx), n)
+            return n
+    import copy
+    return Sw().visit(copy.deepcopy(e))
+
+
+def _canon_bool(e):
+    if isinstance(e, ast.BoolOp):
+        return "(" + (" and " if isinstance(e.op, ast.And) else " or ").join(sorted(_canon_bool(v) for v in e.values)) + ")"
+    if isinstance(e, ast.UnaryOp) and isinstance(e.op, ast.Not):
+        return "not " + _canon_bool(e.operand)
+    return norm(e)
+
+
+@rule("R-REPLACE-SYM")
+def r_replace_sym(E):
+    pm = E.pm
+    res = RuleResult("R-REPLACE-SYM", "the replace primitive accepts (a replaced by b) exactly when it accepts (b replaced "
+                                      "by a): set_updated_values and reset_values apply it in both directions, so an "
+                                      "asymmetric precondition makes one direction of a toggle raise midway")
+    rel, fn = pm.find_function("abstract_modeling_classes/object_linked_to_modeling_obj.py",
+                               "ObjectLinkedToModelingObj.replace_in_mod_obj_container_without_recomputation")
+    p = [a.arg for a in fn.args.args]
+    me, new = p[0], p[1]
+    checked = 0
+    for n in ast.walk(fn):
+        if isinstance(n, ast.If) and any(isinstance(x, ast.Assert) for x in n.body) and me in norm(n.test) + norm(n.body[0]):
+            asserts = [x for x in n.body if isinstance(x, ast.Assert)]
+            res.instances += 1
+            checked += 1
+            if _canon_bool(n.test) != _canon_bool(_swap_names(n.test, me, new)):
+                res.findings.append(Finding(
+                    "R-REPLACE-SYM", "type-compatibility guard",
+                    f"the type-compatibility assertion of the replace primitive is guarded by `{norm(n.test)[:90]}`, which "
+                    f"is not symmetric in ({me}, {new}): replacing an empty value by a non-empty one is refused while the "
+                    f"opposite is accepted, so reset_values / set_updated_values raise halfway for simulations that "
+                    f"change a value's emptiness", rel, n.lineno, fn.name))
+            for a in asserts:
+                res.instances += 1
+                if _canon_bool(a.test) != _canon_bool(_swap_names(a.test, me, new)):
+                    res.findings.append(Finding("R-REPLACE-SYM", "type-compatibility assertion",
+                                                f"`{norm(a.test)[:90]}` is not symmetric in ({me}, {new})", rel, a.lineno,
+                                                fn.name))
+    if not checked:
+        res.undecided.append("replace primitive: type-compatibility guard not found")
+    res.floor = 2
+    return res
